@@ -60,7 +60,8 @@ def _match_angle(s, i):
 
 
 class Frame:
-    __slots__ = ("body", "fid", "locals", "ret_place", "ret_block", "caller", "headers", "site", "depth", "synth", "post")
+    __slots__ = ("body", "fid", "locals", "ret_place", "ret_block", "caller", "headers", "site", "depth", "synth", "post",
+                 "utag0", "utag", "ucount")
 
     def __init__(self, body, fid, caller, ret_place, ret_block, site, depth):
         self.body = body
@@ -74,6 +75,11 @@ class Frame:
         self.depth = depth
         self.synth = {}
         self.post = None
+        # unrolled-iteration tag: distinguishes the value terms of effects / impure calls issued from the same call site
+        # in different iterations of an unrolled loop (and in callees inlined from there)
+        self.utag0 = ""
+        self.utag = ""
+        self.ucount = 0
 
     def copy(self):
         f = Frame(self.body, self.fid, self.caller, self.ret_place, self.ret_block, self.site, self.depth)
@@ -81,6 +87,7 @@ class Frame:
         f.headers = set(self.headers)
         f.synth = dict(self.synth)
         f.post = self.post
+        f.utag0, f.utag, f.ucount = self.utag0, self.utag, self.ucount
         return f
 
 
@@ -244,7 +251,8 @@ class Walker:
             # loop header handling
             loops = body.loops()
             if bb in loops and self._unrolled_loop(fr, body, bb, loops[bb]):
-                pass
+                fr.ucount += 1
+                fr.utag = "%s#%d" % (fr.utag0, fr.ucount)
             elif bb in loops:
                 key = (fr.site, body.defp, bb)
                 if bb in fr.headers:
@@ -831,6 +839,10 @@ class Walker:
             pl = a[1]
             if pl[1][0] == "local":
                 return ("refval", self._read(st, pl))
+            if not a[2] and any(r2 == pl[1] and (p2[:len(pl[2])] == pl[2] or pl[2][:len(p2)] == p2) for (r2, p2) in st.heap):
+                # a shared ref to a place this path has written: the callee sees the value stored there now, not the
+                # value the place had on entry (`x: mem::take(&mut self.v), n: self.v.len()` counts the emptied vector)
+                return ("refval", self._read(st, pl))
             return a
         return a
 
@@ -848,7 +860,7 @@ class Walker:
             st.bb = target
 
         if callee is None:
-            val = ("call", "<indirect>", tuple(self._arg_value(st, a) for a in args), self._site_str(site))
+            val = ("call", "<indirect>", tuple(self._arg_value(st, a) for a in args), self._site_str(site) + fr.utag)
             st.trace.append(("call", "<indirect>", tuple(args), val, site, t["span"]))
             return done(val)
 
@@ -867,7 +879,7 @@ class Walker:
         # 1. primitive effects of the analysis at hand
         eff = self.effect_of(callee, args, st, self)
         if eff is not None:
-            val = ("eff", eff, self._site_str(site))
+            val = ("eff", eff, self._site_str(site) + fr.utag)
             st.trace.append(("eff", eff, tuple(args), val, site, t["span"], callee, tuple(self._arg_value(st, a) for a in args)))
             self.stats["effects"] += 1
             return done(val)
@@ -896,7 +908,7 @@ class Walker:
                 return self._fork(st, alive, work)
             if r[0] == "inline":
                 body2, args2 = r[1], r[2]
-                return self._inline(st, fr, body2, args2, dest, target, site, post=(r[3] if len(r) > 3 else None))
+                return self._inline(st, fr, body2, args2, dest, target, site, post=(r[3] if len(r) > 3 else None), utag=(r[4] if len(r) > 4 else ""))
 
         # 3. inline crate-local bodies
         if callee["local"]:
@@ -916,7 +928,7 @@ class Walker:
         # 4. opaque
         pure = callee["name"] in PURE_NAMES and not any(isinstance(a, tuple) and a[0] == "ref" and a[2] for a in args)
         argv = tuple(self._arg_value(st, a) for a in args)
-        val = ("call", cn, argv, None if pure else self._site_str(site))
+        val = ("call", cn, argv, None if pure else self._site_str(site) + fr.utag)
         key = cn
         self.stats["opaque"][key] = self.stats["opaque"].get(key, 0) + 1
         st.trace.append(("call", cn, tuple(args), val, site, t["span"], callee, len(st.facts.order), t.get("cs")))
@@ -925,12 +937,13 @@ class Walker:
                 self._write(st, a[1], ("mut", val, i))
         return done(val)
 
-    def _inline(self, st, fr, body2, args, dest, target, site, post=None):
+    def _inline(self, st, fr, body2, args, dest, target, site, post=None, utag=""):
         self.stats["inlined"] += 1
         fid = st.nfid
         st.nfid += 1
         f2 = Frame(body2, fid, fr.fid, dest, target, site, fr.depth + 1)
         f2.post = post
+        f2.utag0 = f2.utag = fr.utag + utag
         for i in range(1, body2.argc + 1):
             f2.locals[i] = args[i - 1] if i - 1 < len(args) else ("missing-arg", i)
         st.frames[fid] = f2
@@ -1023,13 +1036,13 @@ class Walker:
                             self._write(st3, dest3, unit)
                             st3.bb = target3
                             return
-                        self._inline(st3, fr3, act[1], act[2], dest3, target3, site3, post=act[3])
+                        self._inline(st3, fr3, act[1], act[2], dest3, target3, site3, post=act[3], utag="#e%d" % (i + 1))
                     return ("__then__", k)
                 p.wants_state = True
                 return p
             act = self._apply_fn(st, fr, f, [elems[0]], step_post(0))
             if act is not None and act[0] == "inline":
-                return act
+                return tuple(act) + ("#e0",)
         # --- `?`
         if name == "branch" and tr == "std::ops::Try":
             x = args[0]
@@ -1355,11 +1368,11 @@ class Walker:
                 site = self._site(fr, st.bb)
                 eff = self.effect_of(callee, list(argvals), st, self)
                 if eff is not None:
-                    val = ("eff", eff, self._site_str(site))
+                    val = ("eff", eff, self._site_str(site) + fr.utag)
                     st.trace.append(("eff", eff, tuple(argvals), val, site, "", callee, tuple(self._arg_value(st, a) for a in argvals)))
                     self.stats["effects"] += 1
                 else:
-                    val = ("call", p, tuple(self._arg_value(st, a) for a in argvals), self._site_str(site))
+                    val = ("call", p, tuple(self._arg_value(st, a) for a in argvals), self._site_str(site) + fr.utag)
                     st.trace.append(("call", p, tuple(argvals), val, site, "", callee, len(st.facts.order), None))
                 return ("val", post(val) if post else val)
         return None
